@@ -29,16 +29,27 @@ func RenameArgumentsAction(newNames []string) RewriteAction {
 			return []ast.Option{option}
 		}
 
-		for i, arg := range option.Args {
-			previousName := arg.Name
-			option.Args[i].Name = newNames[i]
+		// work on copies: arguments and assignments may be shared with other options and builders
+		args := make([]ast.Argument, len(option.Args))
+		copy(args, option.Args)
+		assignments := make([]ast.Assignment, len(option.Assignments))
+		copy(assignments, option.Assignments)
 
-			for j, assignment := range option.Assignments {
+		for i, arg := range args {
+			previousName := arg.Name
+			args[i].Name = newNames[i]
+
+			for j, assignment := range assignments {
 				if assignment.Value.Argument != nil && assignment.Value.Argument.Name == previousName {
-					option.Assignments[j].Value.Argument.Name = newNames[i]
+					renamedArg := *assignment.Value.Argument
+					renamedArg.Name = newNames[i]
+					assignments[j].Value.Argument = &renamedArg
 				}
 			}
 		}
+
+		option.Args = args
+		option.Assignments = assignments
 
 		option.AddToVeneerTrail("RenameArguments")
 
@@ -87,8 +98,11 @@ func ArrayToAppendAction() RewriteAction {
 		newFirstAssignment.Method = ast.AppendAssignment
 		// TODO: what if there is an envelope in the value assignment?
 		if newFirstAssignment.Value.Argument != nil {
-			newFirstAssignment.Value.Argument.Name = newFirstArg.Name
-			newFirstAssignment.Value.Argument.Type = newFirstArg.Type
+			// work on a copy: the argument may be shared with other options and builders
+			valueArg := *newFirstAssignment.Value.Argument
+			valueArg.Name = newFirstArg.Name
+			valueArg.Type = newFirstArg.Type
+			newFirstAssignment.Value.Argument = &valueArg
 		}
 
 		newOpt := option
@@ -155,8 +169,11 @@ func MapToIndexAction() RewriteAction {
 		}})
 		// TODO: what if there is an envelope in the value assignment?
 		if newFirstAssignment.Value.Argument != nil {
-			newFirstAssignment.Value.Argument.Name = newSecondArg.Name
-			newFirstAssignment.Value.Argument.Type = newSecondArg.Type
+			// work on a copy: the argument may be shared with other options and builders
+			valueArg := *newFirstAssignment.Value.Argument
+			valueArg.Name = newSecondArg.Name
+			valueArg.Type = newSecondArg.Type
+			newFirstAssignment.Value.Argument = &valueArg
 		}
 
 		newOpt := option
